@@ -45,6 +45,7 @@ CoverSigs ==
 
 \* C10: every payload allowed in Option, in parameter and return position, in both spellings; pointer payloads;
 \* results over every combination of arms (incl. unit arms)
+OptSlicePayload == {StrT("utf8", FALSE), StrT("u8", FALSE), StrT("u16", FALSE), SliceT("u8", "imm"), SliceT("f64", "imm"), SliceT("i16", "imm")}
 Payload10 == {P(p) : p \in Prims} \cup {EnumT, StructT("Inner"), StructT("Wide"), StructT("Mix")}
 OptEncSigs ==
   {Sg(K("opq"), <<OptT(s, t)>>, FALSE, UnitT) : s \in {"std", "dipl"}, t \in Payload10}
@@ -52,6 +53,10 @@ OptEncSigs ==
   \cup {Sg(K("opq"), <<K("optopq")>>, FALSE, r) : r \in {K("optopq"), K("optbox")}}
   \cup {Sg(K("opq"), <<>>, FALSE, ResT(a, b)) : a \in ResOk, b \in ResErr}
   \cup {Sg(K("none"), <<StructT("WOpt"), StructT("Brw")>>, FALSE, StructT("Os"))}
+  \* slices and strings as Option payloads: the std spelling only (DiplomatOption is documented for primitive, enum and
+  \* struct payloads); a scalar follows the option so that a wrong record size shifts it
+  \cup {Sg(K("opq"), <<OptT("std", t), P("u16")>>, FALSE, UnitT) : t \in OptSlicePayload}
+  \cup {Sg(K("opq"), <<>>, FALSE, OptT("std", t)) : t \in {StrT("utf8", FALSE), SliceT("u8", "imm"), SliceT("f64", "imm")}}
 
 VARIABLES sig, stage
 vars == <<sig, stage>>
